@@ -1,6 +1,7 @@
 import AggkitModel.Properties.C02
 import AggkitModel.Generated.CertFacts
 import AggkitModel.Generated.InitialStatus
+import AggkitModel.Generated.FlowBase
 /-
 C13 — certificate bookkeeping survives crashes and a lost database.
 Property theorems only. The operations quantified over include `crash` (between two loop iterations), a tick whose
@@ -316,5 +317,40 @@ theorem C13_process_is_the_source (settled pending : Option ACert) (loc : Option
           bcases h4 : p.height = l.height + 1 => bcases h5 : l.id = p.id => bcases h6 : l.status = .inError =>
           bcases h7 : p.height = l.height => simp [g1, g2, g3, h3, h4, h5, h6, h7]
 
+
+/-! ### where the next certificate starts, regenerated from the source -/
+
+def sentHdrOfRow (r : Row) : SentHdr := { ToBlock := r.to_, FromBlock := r.from_, Status := stCode r.status, RetryCount := r.retry }
+
+/-- **`getLastSentBlockAndRetryCount` IS the source**: the translation of `baseFlow.getLastSentBlockAndRetryCount`
+    (aggsender/flows/flow_base.go: local variables re-assigned inside nested `if`s, a nil check, a read through the pointer)
+    that `tools/goextract` regenerates on every run returns, for every record, what the model's `lastSentBlockAndRetry`
+    returns — the block after which the next certificate starts and its retry count (C02's "no gap, no overlap" and C13's
+    "correct first block" are stated over this function). The bounds are those of the Go types (`uint64` blocks, `int` count). -/
+theorem C13_next_start_is_the_source (start : Nat) (row : Option Row)
+    (hb : ∀ r ∈ row, r.from_ < 2^64 ∧ r.retry + 1 < 2^64) :
+    Gen.FlowBase.baseFlow_getLastSentBlockAndRetryCount ⟨start⟩ (row.map sentHdrOfRow) = some (lastSentBlockAndRetry start row) := by
+  cases row with
+  | none => simp [Gen.FlowBase.baseFlow_getLastSentBlockAndRetryCount, lastSentBlockAndRetry]
+  | some r =>
+    obtain ⟨h1, h2⟩ := hb r rfl
+    have e1 : add64 r.retry 1 = r.retry + 1 := by unfold add64; exact Nat.mod_eq_of_lt h2
+    have e2 : r.from_ > 0 → sub64 r.from_ 1 = r.from_ - 1 := by
+      intro hp
+      unfold sub64
+      have h1' : (1 : Nat) % 2 ^ 64 = 1 := Nat.mod_eq_of_lt (by decide)
+      rw [h1']
+      have : r.from_ + 2 ^ 64 - 1 = (r.from_ - 1) + 2 ^ 64 := by omega
+      rw [this, Nat.add_mod_right]
+      exact Nat.mod_eq_of_lt (by omega)
+    simp only [Gen.FlowBase.baseFlow_getLastSentBlockAndRetryCount, Gen.FlowBase.InError, lastSentBlockAndRetry, sentHdrOfRow,
+      Option.map_some, Option.pure_def, Option.bind_eq_bind, Option.bind_some, Option.isNone_some, Bool.false_eq_true, if_false,
+      stCode_inError, e1]
+    by_cases he : r.status = .inError
+    · by_cases hf : r.from_ > 0
+      · simp [he, hf, e2 hf]
+      · have : r.from_ = 0 := by omega
+        simp [he, this]
+    · simp [he]
 
 end Aggkit.Aggsender
